@@ -123,6 +123,9 @@ func checkRAs(a, b *ndp.RouterAdvertisement) problems {
 
 // checkDurations reports whether two time.Duration values are consistent.
 func checkDurations(want, got time.Duration) bool {
+	// Compare with the millisecond precision of the wire format: got was
+	// decoded from a packet, but want may be configured more precisely.
+	want, got = want.Truncate(time.Millisecond), got.Truncate(time.Millisecond)
 	if want == 0 || got == 0 {
 		// If either duration is unspecified, nothing to do.
 		return true
@@ -133,6 +136,13 @@ func checkDurations(want, got time.Duration) bool {
 
 // checkMTUs reports whether two NDP MTU option values are consistent, or
 // returns non-empty problems if not.
+// sameLifetime reports whether two lifetimes are carried as the same number of
+// whole seconds by an NDP option: a received lifetime was decoded from a packet,
+// but our own may be configured (or count down) with sub-second precision.
+func sameLifetime(want, got time.Duration) bool {
+	return uint32(want.Seconds()) == uint32(got.Seconds())
+}
+
 func checkMTUs(want, got []ndp.Option) problems {
 	mtuA, okA := pickFirst[*ndp.MTU](want)
 	mtuB, okB := pickFirst[*ndp.MTU](got)
@@ -176,10 +186,10 @@ func checkPrefixes(want, got []ndp.Option) problems {
 			//
 			// TODO: deal with decrementing lifetimes? CoreRAD doesn't support
 			// them at the moment so we can't verify them either.
-			if a.PreferredLifetime != b.PreferredLifetime {
+			if !sameLifetime(a.PreferredLifetime, b.PreferredLifetime) {
 				ps.push("prefix_information_preferred_lifetime", prefixStr(a), a.PreferredLifetime, b.PreferredLifetime)
 			}
-			if a.ValidLifetime != b.ValidLifetime {
+			if !sameLifetime(a.ValidLifetime, b.ValidLifetime) {
 				ps.push("prefix_information_valid_lifetime", prefixStr(a), a.ValidLifetime, b.ValidLifetime)
 			}
 		}
@@ -218,7 +228,7 @@ func checkRoutes(want, got []ndp.Option) problems {
 			//
 			// TODO: deal with decrementing lifetimes? CoreRAD doesn't support
 			// them at the moment so we can't verify them either.
-			if a.Preference == b.Preference && a.RouteLifetime != b.RouteLifetime {
+			if a.Preference == b.Preference && !sameLifetime(a.RouteLifetime, b.RouteLifetime) {
 				ps.push("route_information_lifetime", routeStr(a), a.RouteLifetime, b.RouteLifetime)
 			}
 		}
@@ -249,7 +259,7 @@ func checkRDNSS(want, got []ndp.Option) problems {
 
 	// Assuming both are advertising RDNSS, the options must be identical.
 	for i := range dnsA {
-		if a, b := dnsA[i].Lifetime, dnsB[i].Lifetime; a != b {
+		if a, b := dnsA[i].Lifetime, dnsB[i].Lifetime; !sameLifetime(a, b) {
 			ps.push("rdnss_lifetime", "", a, b)
 		}
 
@@ -300,7 +310,7 @@ func checkDNSSL(want, got []ndp.Option) problems {
 
 	// Assuming both are advertising DNSSL, the options must be identical.
 	for i := range dnsA {
-		if a, b := dnsA[i].Lifetime, dnsB[i].Lifetime; a != b {
+		if a, b := dnsA[i].Lifetime, dnsB[i].Lifetime; !sameLifetime(a, b) {
 			ps.push("dnssl_lifetime", "", a, b)
 		}
 
